@@ -12,6 +12,7 @@
 From Coq Require Import NArith ZArith Lia List Bool.
 From FatVerif Require Import Model.Base Model.Table Model.Fat Model.FileM Model.VolFile Spec.Image Spec.Abs Spec.ByteFile
   Proofs.ImageProofs Proofs.TableProofs Proofs.FatProofs Proofs.FileProofs Proofs.CrossProofs Proofs.RegionsProofs.
+From FatVerif Require Spec.Regions Model.Offsets Proofs.OffsetsProofs.
 Open Scope N_scope.
 Ltac Zify.zify_post_hook ::= Z.to_euclidean_division_equations.
 
@@ -367,6 +368,14 @@ Proof.
 Qed.
 End StepExt.
 
+(* [decode_file] is literally what the tree decoder of Spec/Abs.v computes for a file entry *)
+Lemma decode_file_is_node g im d e :
+  e_is_dot e = false -> e_is_dir e = false ->
+  decode_entries g im (S d) [e] =
+  [NFile e (if e_cluster e =? 0 then None else chain_from g im (e_cluster e) (Abs.chain_fuel g))
+           (decode_file g im (e_cluster e) (e_size e))].
+Proof. intros H1 H2. cbn [decode_entries map]. rewrite H1, H2. reflexivity. Qed.
+
 (* ================================================================ 2. layout of a sane geometry *)
 (* [geom_sane] (RegionsProofs) + the active table copy exists + one table copy holds an entry for every cluster and the
    width can number them.  Every volume the library mounts satisfies this (C07_mount_ok_coherent). *)
@@ -443,6 +452,16 @@ Qed.
 Lemma in_range_iff g c : in_range g c = true <-> 2 <= c < g_clusters g + 2.
 Proof.
   unfold in_range. rewrite andb_true_iff, N.leb_le, N.ltb_lt. reflexivity.
+Qed.
+
+(* where the image-level machine puts the data of cluster c is where the library's own address arithmetic
+   (Model/Offsets.v: u32 sector numbers, u64 byte offsets, checked) addresses it *)
+Theorem data_offset_is_library g c :
+  Offsets.ogeom_ok (ogeom_of g) -> 2 <= c < g_clusters g + 2 ->
+  Offsets.offset_from_cluster (ogeom_of g) c = Ok (g_cluster_off g c).
+Proof.
+  intros Ho Hc. destruct (OffsetsProofs.offset_arith_exact (ogeom_of g) c Ho Hc) as (off & E & Hoff & _).
+  rewrite E. f_equal. exact Hoff.
 Qed.
 
 (* ================================================================ 3. the decoder's FAT value = the library's reader *)
@@ -802,11 +821,15 @@ Theorem vol_step_refines im fi h sz l op :
     VolInv im' fi' h' sz' l' /\
     bf_step (vol_content im l sz, h_off h) op r = Some (vol_content im' l' sz', h_off h') /\
     (forall x, In x l' -> In x l \/ fat_val g im x = FFree) /\
-    (forall a, ~ in_store_area g a -> (forall c, In c l' -> ~ in_cluster g c a) -> img_get im' a = img_get im a).
+    (forall a, ~ in_store_area g a -> (forall c, In c l' -> ~ in_cluster g c a) -> img_get im' a = img_get im a) /\
+    (* any OTHER file of the image (its handle state [h2], disjoint chain) keeps invariant, chain and decoded content *)
+    (forall h2 sz2 l2, VFileInv (world_of g im fi) h2 sz2 l2 -> NoBad (world_of g im fi) l2 -> disjoint l l2 ->
+       VFileInv (world_of g im' fi') h2 sz2 l2 /\ NoBad (world_of g im' fi') l2 /\
+       vol_content im' l2 sz2 = vol_content im l2 sz2 /\ disjoint l' l2).
 Proof.
   intros Ho (Hb & W & I & NB).
   destruct (vstep_core (world_of g im fi) h sz l op W I NB)
-    as (w' & h' & r & sz' & l' & Hs & W' & I' & NB' & Hbf & Hl' & Hds & G & Hout & _ & _).
+    as (w' & h' & r & sz' & l' & Hs & W' & I' & NB' & Hbf & Hl' & Hds & G & Hout & Hvfr & Hoth).
   set (im' := data_effect g (fs_img (w_fat fstore w')) h h' op r).
   assert (Embeds im' w') as E'.
   { apply (embeds_step im (fs_img (w_fat fstore w')) (world_of g im fi) w' h h' op r (embeds_world_of im fi) G Hds).
@@ -820,10 +843,85 @@ Proof.
   split.
   { unfold vol_step. fold ft csz total. rewrite Hs. reflexivity. }
   split; [split; [exact Hb'|split; [exact W2|split; [exact I2|exact (NB2 NB')]]]|].
-  split; [|split].
+  split; [|split; [|split]].
   - rewrite <- (content_world_of im fi), <- (content_world_of im' (w_fi fstore w')), Hc2. exact Hbf.
   - intros x Hx. destruct (Hl' x Hx) as [Hin|(Hf & R)]; [left; exact Hin|right]. apply free_decoded; assumption.
   - intros a Ha Hcl. unfold im'. rewrite (data_effect_frame _ _ _ _ _ _ _ _ _ a Hds I' Hcl). exact (Hout a Ha).
+  - intros h2 sz2 l2 J2 NBo D. destruct (Hoth h2 sz2 l2 J2 D) as (J2' & Hco & D').
+    assert (forall x, In x l2 -> 2 <= x < total + 2) as Hr2 by (intros x Hx; apply (inv_range _ _ _ _ _ _ _ _ J2 x Hx)).
+    split; [|split; [|split; [|exact D']]].
+    + apply (FileInv_frame fstore (val_ft ft) csz total w' _ h2 sz2 l2 J2'). intros x Hx. cbn [world_of w_fat].
+      apply embeds_val_range; [exact E'|exact (Hr2 x Hx)].
+    + intros x Hx. cbn [world_of w_fat]. rewrite (embeds_val_range im' w' x E' (Hr2 x Hx)).
+      rewrite (Hvfr x (fun Hin => D x Hin Hx) (fun Hin => D' x Hin Hx) (Hr2 x Hx)). exact (NBo x Hx).
+    + rewrite <- (content_world_of im fi), <- Hco. unfold vol_content, content.
+      rewrite (cat_chain_bytes im' w' l2 E' Hr2). reflexivity.
+Qed.
+
+(* the same frame through the region classifier of Spec/Regions.v (the one that judges every device write in C11):
+   a byte that changes is classified "FAT copy k" or "cluster c" for a cluster of the new chain *)
+Lemma in_store_area_dec a : in_store_area g a \/ ~ in_store_area g a.
+Proof.
+  unfold in_store_area. destruct (N.le_gt_cases (vol_base g) a) as [H1|H1]; [|right; lia].
+  destruct (N.lt_ge_cases a (vol_base g + N.of_nat (vol_mirrors g) * g_fat_bytes g)) as [H2|H2]; [left; lia|right; lia].
+Qed.
+
+Lemma in_cluster_list_dec a : forall l, (exists c, In c l /\ in_cluster g c a) \/ (forall c, In c l -> ~ in_cluster g c a).
+Proof.
+  induction l as [|c l IH]; [right; intros c []|].
+  assert (in_cluster g c a \/ ~ in_cluster g c a) as [Hc|Hc].
+  { unfold in_cluster. destruct (N.le_gt_cases (g_cluster_off g c) a) as [H1|H1]; [|right; lia].
+    destruct (N.lt_ge_cases a (g_cluster_off g c + g_cluster_size g)) as [H2|H2]; [left; lia|right; lia]. }
+  - left. exists c. split; [left; reflexivity|exact Hc].
+  - destruct IH as [(c' & Hin & Hc')|Hn]; [left; exists c'; split; [right; exact Hin|exact Hc']|].
+    right. intros c' [<-|Hin]; [exact Hc|exact (Hn c' Hin)].
+Qed.
+
+Lemma fat_bytes_pos : 0 < g_fat_bytes g.
+Proof. destruct Hok as (_ & _ & Hf). fold ft in Hf. destruct ft; cbn [fat_fits] in Hf; unfold off12 in Hf; lia. Qed.
+
+Lemma store_area_classified im m a : in_store_area g a -> exists k, k < g_fats g /\ Regions.classify g im m a = Regions.RFat k.
+Proof.
+  intros [H1 H2]. pose proof fat_bytes_pos as Hp. destruct Hok as (Hs & Ha & _).
+  unfold vol_base, vol_mirrors, g_active in *. destruct (g_mirroring g).
+  - rewrite N2Nat.id in H2. set (d := a - g_fat_off g 0).
+    exists (d / g_fat_bytes g). assert (d / g_fat_bytes g < g_fats g) as Hk by (apply N.div_lt_upper_bound; lia).
+    split; [exact Hk|].
+    replace a with (g_fat_off g (d / g_fat_bytes g) + d mod g_fat_bytes g).
+    + apply classify_fat_bytes; [exact Hs|exact Hk|apply N.mod_lt; lia].
+    + pose proof (N.div_mod d (g_fat_bytes g) ltac:(lia)) as E. unfold g_fat_off, g_fat_bytes in *. nia.
+  - change (N.of_nat 1) with 1 in H2. set (k := g_ext_flags g mod 16) in *.
+    exists k. split; [exact Ha|]. replace a with (g_fat_off g k + (a - g_fat_off g k)) by lia.
+    apply classify_fat_bytes; [exact Hs|exact Ha|lia].
+Qed.
+
+Lemma frame_classified im im' l' m :
+  (forall a, ~ in_store_area g a -> (forall c, In c l' -> ~ in_cluster g c a) -> img_get im' a = img_get im a) ->
+  (forall c, In c l' -> 2 <= c < total + 2) ->
+  forall a, img_get im' a <> img_get im a ->
+    (exists k, k < g_fats g /\ Regions.classify g im m a = Regions.RFat k) \/
+    (exists c, In c l' /\ Regions.classify g im m a = Regions.RCluster c (Regions.cluster_owner g im m c)).
+Proof.
+  intros Hfr Hr a Hne. destruct (in_store_area_dec a) as [Ha|Ha]; [left; apply store_area_classified; exact Ha|].
+  destruct (in_cluster_list_dec a l') as [(c & Hin & H1 & H2)|Hn]; [|exfalso; apply Hne; apply Hfr; assumption].
+  right. exists c. split; [exact Hin|].
+  replace a with (g_cluster_off g c + (a - g_cluster_off g c)) by lia.
+  apply classify_cluster_bytes; [apply Hok|exact (Hr c Hin)|lia].
+Qed.
+
+Theorem vol_step_changes_classified im fi h sz l op :
+  op_ok op -> VolInv im fi h sz l ->
+  exists im' fi' h' r, vol_step g (im, fi, h) op = ((im', fi', h'), r) /\
+    forall m a, img_get im' a <> img_get im a ->
+      (exists k, k < g_fats g /\ Regions.classify g im m a = Regions.RFat k) \/
+      (exists c, (In c l \/ fat_val g im c = FFree) /\
+                 Regions.classify g im m a = Regions.RCluster c (Regions.cluster_owner g im m c)).
+Proof.
+  intros Ho V. destruct (vol_step_refines im fi h sz l op Ho V) as (im' & fi' & h' & r & sz' & l' & Hs & V' & _ & Hl' & Hfr & _).
+  exists im', fi', h', r. split; [exact Hs|]. intros m a Hne.
+  destruct V' as (_ & _ & I' & _).
+  destruct (frame_classified im im' l' m Hfr (fun c Hc => proj1 (inv_range _ _ _ _ _ _ _ _ I' c Hc)) a Hne) as [H|(c & Hin & Hc)];
+    [left; exact H|right]. exists c. split; [exact (Hl' c Hin)|exact Hc].
 Qed.
 
 (* what the invariant says to the decoder *)
